@@ -110,3 +110,44 @@ def find_ctx(frame):
                 return v
         f = f.f_back
     return None
+
+
+class BoundedTimeout(Exception):
+    """an expand()/parse() call of the code under test did not return within the watchdog budget"""
+
+
+def install_watchdog(seconds: int = 30, give_up_after: int = 3):
+    """wrap Wtp.expand / Wtp.parse (outermost calls only) in a SIGALRM watchdog: a call that does not return raises
+    BoundedTimeout, which the tiers record like any other exception; after `give_up_after` timeouts every further call
+    fails at once, so that a non-terminating mutant ends the tier in minutes instead of never"""
+    import signal
+    from wikitextprocessor import Wtp
+    state = {"depth": 0, "timeouts": 0}
+
+    def on_alarm(*a):
+        raise BoundedTimeout(f"no result within {seconds} s")
+
+    signal.signal(signal.SIGALRM, on_alarm)
+
+    def wrap(orig):
+        def wrapped(self, *a, **k):
+            if state["depth"] > 0:
+                return orig(self, *a, **k)
+            if state["timeouts"] >= give_up_after:
+                raise BoundedTimeout(f"skipped after {give_up_after} timeouts")
+            state["depth"] += 1
+            signal.alarm(seconds)
+            try:
+                return orig(self, *a, **k)
+            except BoundedTimeout:
+                state["timeouts"] += 1
+                raise
+            finally:
+                signal.alarm(0)
+                state["depth"] -= 1
+        wrapped.__wrapped__ = orig
+        return wrapped
+    if not hasattr(Wtp.expand, "__wrapped__"):
+        Wtp.expand = wrap(Wtp.expand)
+        Wtp.parse = wrap(Wtp.parse)
+    return state
